@@ -15,10 +15,12 @@ func buildPipeline(g *scheduler.ExecutionGraph, stages []*stageDefinition, cfg *
 		var stagePipeline *scheduler.ExecutionGraph
 
 		if def.Task != "" {
-			stageTask = cfg.Tasks[def.Task]
-			if stageTask == nil {
+			if cfg.Tasks[def.Task] == nil {
 				return nil, fmt.Errorf("stage build failed: no such task %s", def.Task)
 			}
+			// every stage works on its own copy, so that its dir does not change the task for others
+			t := *cfg.Tasks[def.Task]
+			stageTask = &t
 		} else {
 			stagePipeline = cfg.Pipelines[def.Pipeline]
 			if stagePipeline == nil {
